@@ -60,10 +60,13 @@ def run(ctx):
     for k, (n, rho, r0, a, b, nswp) in enumerate(confs):
         for s in range(nseeds):
             seed = 100 + 17 * k + s + ctx.seed
-            for ydtype in (None, ['float32', 'int64', 'float16', 'int32'][(k + s) % 4]):
+            for ydtype in (None, ['float32', 'int64', 'float16', 'int32'][(k + s) % 4], ['scale', -40], ['scale', 60]):
                 pair = {}
                 for cache in (False, True):
-                    tr, info, nc, Y = R.record(n, rho, r0, a, b, nswp, cache, seed=seed, return_Y=True, ydtype=ydtype)
+                    if isinstance(ydtype, list):
+                        tr, info, nc, Y = R.record(n, rho, r0, a, b, nswp, cache, seed=seed, return_Y=True, fscale_pow=ydtype[1])
+                    else:
+                        tr, info, nc, Y = R.record(n, rho, r0, a, b, nswp, cache, seed=seed, return_Y=True, ydtype=ydtype)
                     pair[cache] = (tr, info, Y)
                     trs.append(tr)
                     if ydtype is None:
@@ -73,7 +76,7 @@ def run(ctx):
                 if Y0 is None or Y1 is None:
                     continue
                 same = len(Y0) == len(Y1) and all(a_.shape == b_.shape and np.array_equal(a_, b_) for a_, b_ in zip(Y0, Y1))
-                ctx.case(key=('pair', n, rho, r0, a, b, nswp, seed, ydtype), nontrivial=True,
+                ctx.case(key=('pair', n, rho, r0, a, b, nswp, seed, repr(ydtype)), nontrivial=True,
                          sample={'pair': {'n': n, 'rho': rho, 'r0': r0, 'dr': [a, b], 'nswp': nswp},
                                  'm_plain': i0['m'], 'm_cached': i1['m'], 'm_cache': i1['m_cache']})
                 ctx.check(same and i0['nswp'] == i1['nswp'] and i0['stop'] == i1['stop'], 'cross:cache-transparency',
